@@ -112,7 +112,9 @@ func (p *Prog) Sym(v ssa.Value) *Sym {
 	}
 	p.symCache[v] = nil
 	s := p.sym(v)
-	s.V = v
+	if s.V == nil {
+		s.V = v
+	}
 	p.symCache[v] = s
 	return s
 }
